@@ -83,6 +83,8 @@ def _emit(op, l, r, out):
     out.append((op, ln, rn, l, r))
     # integer comparisons with a constant are also reported in their equivalent spellings
     # (x >= 65 is x > 64; 5 < x is x > 5), so rules do not depend on how a threshold was written
+    if ln[0] == "c" and rn[0] != "c" and op in ("==", "!="):
+        out.append((op, rn, ln, r, l))       # 0 == x is x == 0
     if ln[0] != "c" and rn[0] != "c" and op in SWAP:
         # a comparison of two terms is also reported the other way round (a < b is b > a)
         out.append((SWAP[op], rn, ln, r, l))
